@@ -123,6 +123,8 @@ def main(tier):
     rep.attempt(guardloop.check, rep, 'RAID', r'^raid/', 5)
     import deadvdef
     rep.attempt(deadvdef.check, rep, 'RAID', r'^raid/', 190)
+    import lensiblings
+    rep.attempt(lensiblings.check, rep)
     import horner
     rep.attempt(horner.check, rep, 68)
     import raidlayout
